@@ -123,6 +123,7 @@ func scenC13(k *K) {
 	// with the save: the two goroutines are interleaved at the inserted yield points
 	concurrent := k.C.Chance(1, 3)
 	var cw *Op
+	var cwMore []*Op
 	if concurrent {
 		k.W.Stat("save-concurrent-with-write")
 		tag := c.NextVal(0) + ":concurrent"
@@ -131,6 +132,15 @@ func scenC13(k *K) {
 			defer cancel()
 			return c09Write(ctx, T, tag)
 		})
+		// 0-2 more writers: the heads of the log move several times while the save reads them
+		for j, m := 0, k.C.Intn(3); j < m; j++ {
+			tag := c.NextVal(0) + ":concurrent"
+			cwMore = append(cwMore, k.Go(0, "write-during-save", func() (interface{}, error) {
+				ctx, cancel := OpCtx(2 * time.Minute)
+				defer cancel()
+				return c09Write(ctx, T, tag)
+			}))
+		}
 	}
 	// in a third of the runs a second, small database of the same instance is saved at the same
 	// time: each snapshot must come back as its own database
@@ -211,8 +221,10 @@ func scenC13(k *K) {
 		}
 	}
 	if cw != nil {
-		for j := 0; j < 50 && !k.IsDone(cw); j++ {
-			k.Step()
+		for _, o := range append([]*Op{cw}, cwMore...) {
+			for j := 0; j < 50 && !k.IsDone(o); j++ {
+				k.Step()
+			}
 		}
 	}
 	afterSet := LogHashSet(T)
